@@ -105,6 +105,14 @@ theorem idle_of_iter_none (C : Consts) (sizes : Nat → Nat) (s : S) (h : iter C
             split at h
             · simp at h
             · split at h <;> simp at h
+          | unser ow =>
+            cases ow with
+            | false => simp at h
+            | true =>
+              simp only [] at h
+              split at h
+              · simp at h
+              · split at h <;> simp at h
           | fail ow =>
             simp only [] at h
             split at h
